@@ -13,7 +13,7 @@ from concurrent.futures import ProcessPoolExecutor
 import numpy as np
 
 from .. import coq
-from .C02 import _forests, _tsize, assign_points, shape_sig
+from .C02 import _forests, _tsize, _tuplify, assign_points, max_kids, nodes_of
 
 
 def brute_max(args):
@@ -84,11 +84,119 @@ def gen_grid(rng, kind, G):
     raise ValueError(kind)
 
 
-def run(ctx):
+def eval_tree(ctx, ci, f_key, roots, G, S, kind, n_out, grids, records, tasks):
+    """run the implementation on one tree; check grid membership, feasibility and prevalences on its output; queue the
+    brute-force maximum"""
     from phyclone.data.base import DataPoint
     from phyclone.process_trace.map import get_map_node_ccfs_and_clonal_prev_dicts
     from phyclone.tree import Tree
 
+    npts = len(grids) - n_out
+    data = [DataPoint(i, np.array(g, dtype=float), outlier_prob=0, outlier_prob_not=0.0) for i, g in enumerate(grids)]
+    tree = Tree((S, G))
+
+    def rec(node):
+        own, kids = node
+        ch = [rec(k) for k in kids]
+        return tree.create_root_node(children=ch, data=[data[i] for i in own])
+
+    for r in roots:
+        rec(r)
+    for i in range(npts, npts + n_out):
+        tree.add_data_point_to_outliers(data[i])
+    sig = (len(nodes_of(roots)), max_kids(roots), 0)
+    replay = {"roots": roots, "grid": G, "samples": S, "kind": kind, "outliers": n_out, "grids": grids}
+    key_base = "C10:get_map_node_ccfs_and_clonal_prev_dicts:%%s:nodes=%d:kids=%d" % (sig[0], sig[1])
+    try:
+        ccf, prev = get_map_node_ccfs_and_clonal_prev_dicts(tree)
+    except Exception as e:  # the summary must be total on trees with at least one clone
+        ctx.fail(key_base % "raises", "raised %r" % (e,), replay)
+        return
+    # pre-order view through the public accessors
+    nodes = []
+
+    def walk(name):
+        pos = len(nodes)
+        nd = {"name": name, "own": sorted(d.idx for d in tree.get_data(name)), "kids": []}
+        nodes.append(nd)
+        for c in tree.get_children(name):
+            nd["kids"].append(walk(c))
+        return pos
+
+    tops = [walk(r) for r in tree.roots]
+    ctx.count("clones=%d" % sig[0])
+    ctx.count("max_children=%d" % sig[1])
+    ctx.count("G=%d" % G)
+    ctx.count("kind=%s" % kind)
+    ctx.count("samples=%d" % S)
+    if set(ccf.keys()) != {nd["name"] for nd in nodes} or set(prev.keys()) != set(ccf.keys()):
+        ctx.fail(key_base % "clone_set", "reported clones %r differ from the tree's clones %r" % (sorted(map(str, ccf.keys())), sorted(str(nd["name"]) for nd in nodes)), replay)
+        return
+    for s in range(S):
+        lp = [[sum(grids[i][s][x] for i in nd["own"]) for x in range(G)] for nd in nodes]
+        idx, bad = [], None
+        for nd in nodes:
+            v = float(ccf[nd["name"]][s]) * (G - 1)
+            if not math.isfinite(v) or abs(v - round(v)) > 1e-9 or not (0 <= round(v) <= G - 1):
+                bad = (nd["name"], float(ccf[nd["name"]][s]))
+                break
+            idx.append(int(round(v)))
+        if bad:
+            ctx.fail(key_base % "off_grid", "ccf %r of clone %r in sample %d is not i/(G-1) with 0<=i<G" % (bad[1], bad[0], s), replay)
+            continue
+        # feasibility on the implementation's own output
+        infeasible = None
+        for p, nd in enumerate(nodes):
+            if sum(idx[c] for c in nd["kids"]) > idx[p]:
+                infeasible = "clone %r has index %d below its children's sum %d" % (nd["name"], idx[p], sum(idx[c] for c in nd["kids"]))
+        if sum(idx[c] for c in tops) > G - 1:
+            infeasible = "top-level clones sum to %d > G-1 = %d" % (sum(idx[c] for c in tops), G - 1)
+        if infeasible:
+            ctx.fail(key_base % "infeasible", "sample %d: %s" % (s, infeasible), replay)
+        # prevalence
+        for p, nd in enumerate(nodes):
+            expect = float(ccf[nd["name"]][s]) - sum(float(ccf[nodes[c]["name"]][s]) for c in nd["kids"])
+            got = float(prev[nd["name"]][s])
+            if abs(got - expect) > 1e-12 or got < -1e-12:
+                ctx.fail(key_base % "prevalence", "sample %d clone %r: prevalence %r, ccf minus children %r" % (s, nd["name"], got, expect), replay)
+                break
+        score = sum(lp[p][idx[p]] for p in range(len(nodes)))
+        records.append({"ci": ci, "s": s, "G": G, "kind": kind, "f": f_key, "sig": sig, "nodes": [{"kids": nd["kids"]} for nd in nodes], "tops": tops, "lp": lp, "idx": idx, "score": score, "replay": replay, "key": key_base, "infeasible": bool(infeasible)})
+        tasks.append(([nd["kids"] for nd in nodes], tops, lp, G))
+
+
+def finish(ctx, records, results, name):
+    items, unique_n, tied_n = [], 0, 0
+    for rec_, (best, nbest, nfeas) in zip(records, results):
+        ctx.case(key=(rec_["f"], rec_["G"], rec_["kind"], rec_["s"], rec_["ci"]), nontrivial=rec_["sig"][0] >= 2 and nfeas > 1,
+                 sample={"shape": rec_["f"], "G": rec_["G"], "kind": rec_["kind"], "feasible_assignments": nfeas, "maximisers": nbest, "max": best, "reported_idx": rec_["idx"]})
+        ctx.count("unique_optimum" if nbest == 1 else "tied_optimum")
+        if not rec_["infeasible"] and rec_["score"] != best:
+            ctx.fail(rec_["key"] % "suboptimal", "sample %d: reported assignment %r scores %d, the maximum over %d feasible assignments is %d" % (rec_["s"], rec_["idx"], rec_["score"], nfeas, best), rec_["replay"])
+        forest = "[" + "; ".join(coq_ztree(rec_["nodes"], p, rec_["lp"]) for p in rec_["tops"]) + "]"
+        obs = "[" + "; ".join(str(i) for i in rec_["idx"]) + "]%nat"
+        if nbest == 1:
+            unique_n += 1
+            items.append("chk_idx %d %s %s" % (rec_["G"], forest, obs))
+        else:
+            tied_n += 1
+            items.append("chk_score %d %s %s" % (rec_["G"], forest, obs))
+    ctx.extra["instances_unique_optimum"] = unique_n
+    ctx.extra["instances_tied_optimum"] = tied_n
+    if not items:
+        return
+    ok, bad, detail = coq.coq_eval_bool_cases(ctx, name, HEADER, items, shard=max(20, len(items) // 6 + 1), workers=6)
+    ctx.extra["coq_corr_cases"] = len(items)
+    if not ok:
+        ctx.broken_tie("C10 correspondence file did not evaluate", detail)
+    else:
+        ctx.obligation("corr_model_eq_impl_%d_cases" % len(items), not bad)
+        if bad:
+            r0 = records[bad[0]]
+            ctx.broken[-1]["detail"] = {"failing_case_count": len(bad), "first": r0["replay"], "sample": r0["s"], "reported_idx": r0["idx"], "item": items[bad[0]][:600]}
+
+
+def run(ctx):
     coq.check_property_file(ctx)
     quick = ctx.quick
     rng = ctx.rng
@@ -121,110 +229,29 @@ def run(ctx):
         roots, npts = assign_points(rng, f, 2)
         n_out = rng.choice((0, 0, 1, 2))
         grids = [[gen_grid(rng, kind, G) for _ in range(S)] for _ in range(npts + n_out)]
-        data = [DataPoint(i, np.array(g, dtype=float), outlier_prob=0, outlier_prob_not=0.0) for i, g in enumerate(grids)]
-        tree = Tree((S, G))
-
-        def rec(node):
-            own, kids = node
-            ch = [rec(k) for k in kids]
-            return tree.create_root_node(children=ch, data=[data[i] for i in own])
-
-        for r in roots:
-            rec(r)
-        for i in range(npts, npts + n_out):
-            tree.add_data_point_to_outliers(data[i])
-        sig = shape_sig(f)
-        replay = {"roots": roots, "grid": G, "samples": S, "kind": kind, "outliers": n_out, "grids": grids}
-        key_base = "C10:get_map_node_ccfs_and_clonal_prev_dicts:%%s:nodes=%d:kids=%d" % (sig[0], sig[1])
-        try:
-            ccf, prev = get_map_node_ccfs_and_clonal_prev_dicts(tree)
-        except Exception as e:  # the summary must be total on trees with at least one clone
-            ctx.fail(key_base % "raises", "raised %r" % (e,), replay)
-            continue
-        # pre-order view through the public accessors
-        nodes = []
-
-        def walk(name):
-            pos = len(nodes)
-            nd = {"name": name, "own": sorted(d.idx for d in tree.get_data(name)), "kids": []}
-            nodes.append(nd)
-            for c in tree.get_children(name):
-                nd["kids"].append(walk(c))
-            return pos
-
-        tops = [walk(r) for r in tree.roots]
-        ctx.count("clones=%d" % sig[0])
-        ctx.count("max_children=%d" % sig[1])
-        ctx.count("G=%d" % G)
-        ctx.count("kind=%s" % kind)
-        ctx.count("samples=%d" % S)
-        if set(ccf.keys()) != {nd["name"] for nd in nodes} or set(prev.keys()) != set(ccf.keys()):
-            ctx.fail(key_base % "clone_set", "reported clones %r differ from the tree's clones %r" % (sorted(map(str, ccf.keys())), sorted(str(nd["name"]) for nd in nodes)), replay)
-            continue
-        for s in range(S):
-            lp = [[sum(grids[i][s][x] for i in nd["own"]) for x in range(G)] for nd in nodes]
-            idx, bad = [], None
-            for nd in nodes:
-                v = float(ccf[nd["name"]][s]) * (G - 1)
-                if not math.isfinite(v) or abs(v - round(v)) > 1e-9 or not (0 <= round(v) <= G - 1):
-                    bad = (nd["name"], float(ccf[nd["name"]][s]))
-                    break
-                idx.append(int(round(v)))
-            if bad:
-                ctx.fail(key_base % "off_grid", "ccf %r of clone %r in sample %d is not i/(G-1) with 0<=i<G" % (bad[1], bad[0], s), replay)
-                continue
-            # feasibility on the implementation's own output
-            infeasible = None
-            for p, nd in enumerate(nodes):
-                if sum(idx[c] for c in nd["kids"]) > idx[p]:
-                    infeasible = "clone %r has index %d below its children's sum %d" % (nd["name"], idx[p], sum(idx[c] for c in nd["kids"]))
-            if sum(idx[c] for c in tops) > G - 1:
-                infeasible = "top-level clones sum to %d > G-1 = %d" % (sum(idx[c] for c in tops), G - 1)
-            if infeasible:
-                ctx.fail(key_base % "infeasible", "sample %d: %s" % (s, infeasible), replay)
-            # prevalence
-            for p, nd in enumerate(nodes):
-                expect = float(ccf[nd["name"]][s]) - sum(float(ccf[nodes[c]["name"]][s]) for c in nd["kids"])
-                got = float(prev[nd["name"]][s])
-                if abs(got - expect) > 1e-12 or got < -1e-12:
-                    ctx.fail(key_base % "prevalence", "sample %d clone %r: prevalence %r, ccf minus children %r" % (s, nd["name"], got, expect), replay)
-                    break
-            score = sum(lp[p][idx[p]] for p in range(len(nodes)))
-            records.append({"ci": ci, "s": s, "G": G, "kind": kind, "f": f, "sig": sig, "nodes": [{"kids": nd["kids"]} for nd in nodes], "tops": tops, "lp": lp, "idx": idx, "score": score, "replay": replay, "key": key_base, "infeasible": bool(infeasible)})
-            tasks.append(([nd["kids"] for nd in nodes], tops, lp, G))
+        eval_tree(ctx, ci, f, roots, G, S, kind, n_out, grids, records, tasks)
     ctx.log("%d trees, %d (tree, sample) instances" % (len(plan), len(records)))
     with ProcessPoolExecutor(max_workers=6) as ex:
         results = list(ex.map(brute_max, tasks, chunksize=4))
     ctx.log("brute force done")
-    items, unique_n, tied_n = [], 0, 0
-    for rec_, (best, nbest, nfeas) in zip(records, results):
-        ctx.case(key=(rec_["f"], rec_["G"], rec_["kind"], rec_["s"], rec_["ci"]), nontrivial=rec_["sig"][0] >= 2 and nfeas > 1,
-                 sample={"shape": rec_["f"], "G": rec_["G"], "kind": rec_["kind"], "feasible_assignments": nfeas, "maximisers": nbest, "max": best, "reported_idx": rec_["idx"]})
-        ctx.count("unique_optimum" if nbest == 1 else "tied_optimum")
-        if not rec_["infeasible"] and rec_["score"] != best:
-            ctx.fail(rec_["key"] % "suboptimal", "sample %d: reported assignment %r scores %d, the maximum over %d feasible assignments is %d" % (rec_["s"], rec_["idx"], rec_["score"], nfeas, best), rec_["replay"])
-        forest = "[" + "; ".join(coq_ztree(rec_["nodes"], p, rec_["lp"]) for p in rec_["tops"]) + "]"
-        obs = "[" + "; ".join(str(i) for i in rec_["idx"]) + "]%nat"
-        if nbest == 1:
-            unique_n += 1
-            items.append("chk_idx %d %s %s" % (rec_["G"], forest, obs))
-        else:
-            tied_n += 1
-            items.append("chk_score %d %s %s" % (rec_["G"], forest, obs))
-    ctx.extra["instances_unique_optimum"] = unique_n
-    ctx.extra["instances_tied_optimum"] = tied_n
-    ok, bad, detail = coq.coq_eval_bool_cases(ctx, "corr", HEADER, items, shard=max(20, len(items) // 6 + 1), workers=6)
-    ctx.extra["coq_corr_cases"] = len(items)
-    if not ok:
-        ctx.broken_tie("C10 correspondence file did not evaluate", detail)
-    else:
-        ctx.obligation("corr_model_eq_impl_%d_cases" % len(items), not bad)
-        if bad:
-            r0 = records[bad[0]]
-            ctx.broken[-1]["detail"] = {"failing_case_count": len(bad), "first": r0["replay"], "sample": r0["s"], "reported_idx": r0["idx"], "item": items[bad[0]][:600]}
+    finish(ctx, records, results, "corr")
     ctx.assumptions += [
         "integer scores in the model; the implementation is fed integer-valued float grids, the constant log_prior per clone shifts all assignments equally",
         "indices compared exactly only where the brute force finds a unique maximiser; otherwise by total score and feasibility",
         "trees have at least one clone (an all-outlier tree is C12's finding)",
         "prevalence >= -1e-12 and = ccf - children's ccfs is checked on the float output, not proved for floats",
     ]
+
+
+def replay(ctx, doc):
+    r = doc.get("replay", {})
+    if "grids" not in r:
+        ctx.broken_tie("replay file has no recognised input", doc)
+        return
+    records, tasks = [], []
+    roots = _tuplify(r["roots"])
+    eval_tree(ctx, 0, "replay", roots, r["grid"], r["samples"], r.get("kind", "replay"), r.get("outliers", 0), r["grids"], records, tasks)
+    results = [brute_max(t) for t in tasks]
+    for rec_, res in zip(records, results):
+        ctx.log("sample %d: reported %r score %d; brute-force max %d (%d maximisers, %d feasible)" % (rec_["s"], rec_["idx"], rec_["score"], res[0], res[1], res[2]))
+    finish(ctx, records, results, "replay")
